@@ -23,6 +23,8 @@ pub enum Op1 {
     FoldSum, FoldAssocSum, ReduceMax, ReduceAssocMax, AddState,
     /// a replay loop nested inside a loop body
     Nested(i64, i64, Vec<Op1>),
+    /// the same, but the ops of the inner body read the ENCLOSING loop's state
+    NestedO(i64, i64, Vec<Op1>),
     /// identity, but the user function panics on the first element whose value is congruent to this modulo 7 (C20)
     PanicAt(i64),
 }
@@ -69,6 +71,7 @@ impl Op1 {
             Op1::ReduceMax => "OReduceMax".into(), Op1::ReduceAssocMax => "OReduceAssocMax".into(),
             Op1::AddState => "OAddState".into(),
             Op1::Nested(n, lim, body) => format!("(ONested {} {} {})", z(*n), z(*lim), ops_coq(body)),
+            Op1::NestedO(n, lim, body) => format!("(ONestedO {} {} {})", z(*n), z(*lim), ops_coq(body)),
             Op1::PanicAt(_) => "(OMapAdd 0)".into(),
         }
     }
@@ -154,6 +157,18 @@ fn apply1(s: DynStream<P>, o: &Op1, state: &StateGet) -> DynStream<P> {
                 *n as usize,
                 0i64,
                 move |s, inner| { let get = StateGet::Handle(inner); apply(erase(s), &body, &get) },
+                |d: &mut i64, x: P| *d += x.1,
+                |s: &mut i64, d: i64| *s += d,
+                move |s: &mut i64| *s < limit,
+            );
+            erase(st.map(|v: i64| (0, v)))
+        }
+        Op1::NestedO(n, limit, body) => {
+            let (body, limit, outer) = (body.clone(), *limit, state.clone());
+            let st = erase(s.shuffle()).replay(
+                *n as usize,
+                0i64,
+                move |s, _inner| apply(erase(s), &body, &outer),
                 |d: &mut i64, x: P| *d += x.1,
                 |s: &mut i64, d: i64| *s += d,
                 move |s: &mut i64| *s < limit,
@@ -364,7 +379,9 @@ pub fn loop_body(rng: &mut Rng, max: u64, allow_nested: bool) -> Vec<Op1> {
     if allow_nested && rng.chance(1, 4) {
         let inner = ops(rng, 2, true);
         let pos = rng.below(b.len() as u64 + 1) as usize;
-        b.insert(pos, Op1::Nested(rng.range(1, 3), *rng.pick(&[40i64, 1_000_000_000]), inner));
+        let (n, lim) = (rng.range(1, 3), *rng.pick(&[40i64, 1_000_000_000]));
+        // one nested loop in four reads the ENCLOSING loop's state in its body
+        b.insert(pos, if rng.chance(1, 4) { Op1::NestedO(n, lim, inner) } else { Op1::Nested(n, lim, inner) });
     }
     b
 }
